@@ -63,7 +63,7 @@ fn main() {
     let max_size = if thorough { 4 } else { 3 };
     let members = c07_members();
     let subsets: Vec<Vec<usize>> = combi::subsets(members.len(), 1, max_size).into_iter().map(|s| s.iter().map(|&i| members[i]).collect()).collect();
-    rep.rule = format!("collector pool {:?}; all subsets of size <= {} x all registration orders (for sizes up to 3, thorough 4; one order above) x all registry-internal collect orders (observed through a Spy collector; fresh registries are rebuilt until all m! orders have been seen) x all iteration orders of the caller's common-label HashMap x 6 registry configurations (plain, prefix, 1/2/3 common labels incl. names sorting before and after the metrics' own labels, prefix+2); each gather() compared with the reference gather; all results for one (subset, config) must be identical. distinct = distinct canonical results", c07_members().iter().map(|i| POOL[*i].name).collect::<Vec<_>>(), max_size);
+    rep.rule = format!("collector pool {:?}; all subsets of size <= {} x all registration orders (for sizes up to 3, thorough 4; one order above) x all registry-internal collect orders (observed through a Spy collector; fresh registries are rebuilt until all m! orders have been seen) x all iteration orders of the caller's common-label HashMap x 6 registry configurations (plain, prefix, 1/2/3 common labels incl. names sorting before and after the metrics' own labels, prefix+2); each gather() compared with the reference gather, then the first registered collector is unregistered and gather() compared again; all results for one (subset, config) must be identical. distinct = distinct canonical results", c07_members().iter().map(|i| POOL[*i].name).collect::<Vec<_>>(), max_size);
     rep.bounds = json!({"subset_size": max_size, "pool": c07_members().len(), "configs": configs().len()});
     let work: Mutex<Vec<Vec<usize>>> = Mutex::new(subsets);
     let reports: Mutex<Vec<Report>> = Mutex::new(vec![]);
@@ -85,6 +85,16 @@ fn main() {
                             let got: Vec<RFamily> = run.result.iter().map(RFamily::from_proto).collect();
                             let dump = got.iter().map(|f| f.key(true)).collect::<Vec<_>>().join("\n");
                             dumps.entry(dump).or_insert((run.reg_order.clone(), run.collect_order.clone(), run.label_order.clone()));
+                            if first_bad.is_none() {
+                                // history: the first registered member is unregistered, then gather again
+                                let rest: Vec<usize> = run.members.iter().cloned().filter(|m| *m != run.unregistered).collect();
+                                let exp2 = reference_gather(&rest, &run.cfg);
+                                let got2: Vec<RFamily> = run.after_unregister.iter().map(RFamily::from_proto).collect();
+                                if let Some((class, detail)) = compare(&got2, &exp2) {
+                                    let detail = format!("after unregistering {:?}: {}", POOL[run.unregistered].name, detail);
+                                    first_bad = Some((format!("after-unregister:{}", class), detail.clone(), json!({"engine":"enum","members": run.members, "unregistered": run.unregistered, "config": format!("{:?}", run.cfg), "registration_order": run.reg_order, "detail": detail})));
+                                }
+                            }
                             if first_bad.is_none() {
                                 if let Some((class, detail)) = compare(&got, &exp) {
                                     first_bad = Some((class, detail.clone(), json!({"engine":"enum","members": run.members, "member_names": run.members.iter().map(|i| POOL[*i].name).collect::<Vec<_>>(), "config": format!("{:?}", run.cfg), "registration_order": run.reg_order, "collect_order": run.collect_order, "label_map_order": run.label_order, "detail": detail})));
